@@ -47,7 +47,7 @@ PROPS = {
                 enums=['bounds'], configs_quick=['default', 'safe', 'zod'], design='7/C01'),
     'C02': dict(traits=None, part='all', count=True, theorems=['DW.C02_impl_list', 'DW.C02_delegation_same_bounds', 'DW.implPreds_shortcut', 'DW.C18_effect', 'DW.C09_fieldwise', 'DW.C06_skipped_never_mentioned', 'DW.C02_obligations', 'DW.C02_well_typed', 'DW.typeable_of_validated', 'DW.C02_type_checks', 'DW.C02_obligations_sub', 'DW.C02_preservation', 'DW.C02_never_stuck', 'DW.eval_progress', 'DW.eval_preserves', 'DW.NonVacuous.cxTotal', 'DW.matchPat_preserves', 'DW.applyFn_preserves', 'DW.NonVacuous.accepted', 'DW.NonVacuous.rawOK', 'DW.NonVacuous.implsOK'],
                 enums=None, configs_quick=['default', 'safe', 'zod', 'nightly'], diagnostics=True, design='7/C02'),
-    'C03': dict(traits=['PartialEq'], theorems=['DW.C03_eq'], enums=['incomparable', 'skip', 'fieldopts'], configs_quick=['default', 'safe', 'zod', 'nightly'], design='7/C03'),
+    'C03': dict(traits=['PartialEq'], theorems=['DW.C03_validated', 'DW.C03_eq'], enums=['incomparable', 'skip', 'fieldopts'], configs_quick=['default', 'safe', 'zod', 'nightly'], design='7/C03'),
     'C04': dict(tables=True, traits=['PartialOrd', 'Ord'], theorems=['DW.buildDiscriminants_spec', 'DW.C04_ord_refines', 'DW.C04_delegation', 'DW.C04_agree', 'DW.NonVacuous.tiOK', 'DW.NonVacuous.vals'],
                 enums=['discriminants', 'incomparable', 'skip', 'fieldopts'], configs_quick=['default', 'safe', 'nightly', 'zod'], design='7/C04'),
     'C05': dict(tables=True, traits=['PartialEq', 'Eq', 'PartialOrd', 'Ord', 'Hash'],
@@ -62,10 +62,10 @@ PROPS = {
     'C07': dict(traits=['PartialEq', 'PartialOrd'], theorems=['DW.C07_marked_eq', 'DW.C07_marked_pcmp', 'DW.C07_eq_eval', 'DW.C07_pcmp_eval',
                                                                'DW.C07_unaffected_eq', 'DW.C07_unaffected_pcmp'],
                 enums=['incomparable'], configs_quick=['default', 'safe', 'nightly', 'zod'], design='7/C07'),
-    'C08': dict(traits=['Hash'], theorems=['DW.C08_transcript', 'DW.C08_iff'], enums=['skip', 'fieldopts'], configs_quick=['default', 'safe', 'zod'], design='7/C08'),
-    'C09': dict(tables=True, traits=['Clone', 'Copy'], theorems=['DW.C09_fieldwise', 'DW.C09_shortcut', 'DW.C09_union', 'DW.C09_copy_marker'],
+    'C08': dict(traits=['Hash'], theorems=['DW.C08_validated', 'DW.C08_transcript', 'DW.C08_iff'], enums=['skip', 'fieldopts'], configs_quick=['default', 'safe', 'zod'], design='7/C08'),
+    'C09': dict(tables=True, traits=['Clone', 'Copy'], theorems=['DW.C09_validated', 'DW.C09_fieldwise', 'DW.C09_shortcut', 'DW.C09_union', 'DW.C09_copy_marker'],
                 enums=['bounds', 'skip'], configs_quick=['default', 'safe', 'zod'], design='7/C09'),
-    'C10': dict(traits=['Debug'], theorems=['DW.C10_transcript', 'DW.C10_names'], enums=['debug', 'skip', 'fieldopts'], configs_quick=['default', 'safe', 'zod'], design='7/C10'),
+    'C10': dict(traits=['Debug'], theorems=['DW.C10_validated', 'DW.C10_transcript', 'DW.C10_names'], enums=['debug', 'skip', 'fieldopts'], configs_quick=['default', 'safe', 'zod'], design='7/C10'),
     'C11': dict(traits=['Default'], theorems=['DW.C11_body', 'DW.C11_validated'], enums=['default'], configs_quick=['default', 'safe', 'zod'], design='7/C11'),
     'C12': dict(tables=True, traits=['PartialEq', 'PartialOrd', 'Ord'], theorems=['DW.C12_no_ub_eq', 'DW.C12_no_ub_ord', 'DW.C12_safe_no_unsafe'],
                 enums=['incomparable', 'discriminants'], configs_quick=['default', 'safe', 'nightly', 'zod'], unsafe_scan=True, design='7/C12'),
@@ -85,9 +85,9 @@ PROPS = {
     'C16': dict(traits=[], outcome='message', theorems=['DW.C16_no_panic_stage2', 'DW.Input.fromInput_np', 'DW.genPanic_none', 'DW.C16_stage1_item_kept', 'DW.C16_stage1_forward', 'DW.C16_pipeline', 'DW.C16_crate_args_rejected', 'DW.C16_second_visit'],
                 enums=['invalid', 'names'], stage1=True, malformed=0.6, configs_quick=['default', 'zeroize', 'zod', 'nightly'], diagnostics=True, design='7/C16'),
     'C17': dict(tables=True, traits=['Eq', 'Clone'], theorems=['DW.C17_eq_obligations', 'DW.C17_union', 'DW.C06_skipped_never_mentioned', 'DW.C02_obligations', 'DW.C02_well_typed'], enums=['skip', 'bounds', 'fieldopts'], configs_quick=['default', 'safe', 'zod'], design='7/C17'),
-    'C18': dict(traits=['Zeroize'], theorems=['DW.C18_effect'], enums=['zeroize', 'skip', 'fieldopts'], configs_quick=['zeroize', 'zod'],
+    'C18': dict(traits=['Zeroize'], theorems=['DW.C18_validated', 'DW.C18_effect'], enums=['zeroize', 'skip', 'fieldopts'], configs_quick=['zeroize', 'zod'],
                 configs_thorough=['zeroize', 'zod', 'safe-zod'], design='7/C18'),
-    'C19': dict(traits=['ZeroizeOnDrop'], theorems=['DW.C19_effect_zod', 'DW.C19_effect_delegating', 'DW.C19_impls'],
+    'C19': dict(traits=['ZeroizeOnDrop'], theorems=['DW.C19_validated', 'DW.C19_effect_zod', 'DW.C19_effect_delegating', 'DW.C19_impls'],
                 enums=['zeroize', 'skip', 'fieldopts'], configs_quick=['zeroize', 'zod'], configs_thorough=['zeroize', 'zod', 'safe-zod'], design='7/C19'),
 }
 
@@ -120,7 +120,7 @@ def proof_obligations(prop, thorough):
     os.makedirs(runner.WORK, exist_ok=True)
     audit = os.path.join(runner.WORK, 'Audit_%s.lean' % prop)
     with open(audit, 'w') as f:
-        f.write('import %s\nimport DW.Props.NonVacuous\n' % module + ''.join('#print axioms %s\n' % t for t in spec['theorems']))
+        f.write('import %s\nimport DW.Props.NonVacuous\nimport DW.Props.EndToEnd\n' % module + ''.join('#print axioms %s\n' % t for t in spec['theorems']))
     rc, out = sh(['lake', 'env', 'lean', audit], cwd=LEAN)
     axioms, discharged = {}, 0
     for t in spec['theorems']:
